@@ -847,20 +847,39 @@ pub fn check_c06(ix: &Ix<'_>, v: &mut Vec<Violation>) {
         // an ack (duplicate, unsolicited) that happens to carry the id of a send that is encoded but
         // not flushed yet: the endpoint cannot tell it from the real one, so after a deviation the
         // window opens when the operation starts.
-        // After a deviation what counts is when the acknowledgement ARRIVED: a duplicate acknowledgement sent
-        // before a later send with the same (re-used) identifier was even started, but delivered after it,
-        // is indistinguishable from the real one for the endpoint.
-        let from = if deviated { o.start.min(wire.seq) } else { wire.seq };
-        let ack = ix.sent.iter().find(|s| {
-            s.conn == 0
-                && matches!(&s.pkt, Some(p) if p.name() == want && p.pid() == Some(pid))
-                && if deviated { s.delivered.is_some_and(|d| d > from && d <= *done_seq) } else { s.seq > from && s.seq < *done_seq }
+        // Normally the acknowledgement is sent after the packet left the write buffer. After a deviation
+        // (and only for sends completing after it) what counts is when an acknowledgement ARRIVED: a
+        // duplicate acknowledgement sent before a later send with the same (re-used) identifier was even
+        // started, but delivered after it, is indistinguishable from the real one for the endpoint; so is
+        // one that carries the id of a send that is encoded but not flushed yet.
+        let is_ack = |s: &&Sent| s.conn == 0 && matches!(&s.pkt, Some(p) if p.name() == want && p.pid() == Some(pid));
+        let dev_before = ix.out.hist.iter().any(|e| e.seq < *done_seq && matches!(e.ev, Ev::Fault { kind: "ack_deviation", .. }));
+        let ack = ix.sent.iter().filter(is_ack).find(|s| s.seq > wire.seq && s.seq < *done_seq).or_else(|| {
+            if deviated && dev_before {
+                // When exactly the endpoint processed a delivered acknowledgement is not observable (it may sit
+                // in the socket while the next send with the same identifier is registered). What is
+                // observable: the k-th successful completion for (type, id) needs k such acknowledgements
+                // sent before it.
+                let k = ix
+                    .ops
+                    .iter()
+                    .filter(|x| matches!(&x.done, Some((d, OpResult::Ok(i))) if *d <= *done_seq && i.what == info.what))
+                    .filter(|x| {
+                        let src = if info.what == "pubcomp" { x.op.saturating_sub(1) } else { x.op };
+                        ix.eps.iter().any(|e| e.conn == 0 && op_of_packet(&e.pkt) == Some((x.sender, src)) && e.pkt.pid() == Some(pid))
+                    })
+                    .count();
+                let acks: Vec<&Sent> = ix.sent.iter().filter(is_ack).filter(|s| s.seq < *done_seq).collect();
+                if k >= 1 && acks.len() >= k { Some(acks[k - 1]) } else { None }
+            } else {
+                None
+            }
         });
         let Some(ack) = ack else {
             viol(
                 v,
                 "C06",
-                format!("C06/ok-without-matching-ack/{role}/{want}{}", if deviated { "/after-deviation" } else { "" }),
+                format!("C06/ok-without-matching-ack/{role}/{want}{}", if deviated && dev_before { "/after-deviation" } else { "" }),
                 format!("sender {} op {} (id {pid}) returned Ok({}) but the peer sent no {want} #{pid} between the send and the completion", o.sender, o.op, info.what),
                 *done_seq,
             );
@@ -2197,6 +2216,8 @@ pub fn check_c20(ix: &Ix<'_>, v: &mut Vec<Violation>) {
                     Some(t) => {
                         if ts - last < t {
                             viol(v, "C20", format!("C20/live-peer-timed-out/{role}"), format!("keep-alive timeout at {ts} ms, but a complete packet had arrived at {last} ms (timeout in force {t} ms)"), *sq);
+                            // the same fact read as C19: the keep-alive in force is not the negotiated one
+                            viol(v, "C19", format!("C19/keepalive-in-force/{role}/shorter"), format!("negotiated keep-alive timeout {t} ms (1.5 x the client's value, or the handshake's override), but the connection was timed out {} ms after the last complete packet", ts - last), *sq);
                         }
                     }
                 }
@@ -2228,6 +2249,7 @@ pub fn check_c20(ix: &Ix<'_>, v: &mut Vec<Violation>) {
                         let ended_in_time = stop_ms.is_some_and(|s| s <= w[0] + t + 2000) || ix.conn_done.iter().any(|c| c.1 == conn && t_of(c.0) <= w[0] + t + 2000);
                         if !ended_in_time {
                             viol(v, "C20", format!("C20/idle-peer-not-timed-out/{role}"), format!("no complete packet between {} ms and {} ms (keep-alive timeout in force {t} ms) and the connection was not ended", w[0], w[1]), ix.last_seq);
+                            viol(v, "C19", format!("C19/keepalive-in-force/{role}/longer"), format!("negotiated keep-alive timeout {t} ms (1.5 x the client's value, or the handshake's override), but {} ms of silence did not end the connection", w[1] - w[0]), ix.last_seq);
                         } else if stop_ms.is_some_and(|s| s <= w[0] + t + 2000 && s > w[0]) && ka_stop.is_none() && rd_stop.is_none() {
                             viol(v, "C20", format!("C20/idle-timeout-wrong-reason/{role}"), format!("idle connection was ended with {:?} instead of a keep-alive timeout", stop.map(|s| &s.2)), stop.map_or(0, |s| s.0));
                         }
